@@ -235,7 +235,12 @@ type pubScenario struct {
 func pubWorld() *fedi.Net {
 	n := fedi.New()
 	for _, u := range []string{"alice", "bob"} {
-		n.Serve(fedi.Actor(h1+"/users/"+u, u, u)) // no outbox: constructing an actor is one fetch
+		a := fedi.Actor(h1+"/users/"+u, u, u) // no outbox: constructing an actor is one fetch
+		// bios with a list and a quote: the authors of a post are constructed concurrently, and
+		// constructing renders, so the layout helpers below pub run in both goroutines
+		a["summary"] = "<ul><li>one</li><li><b>two</b></li></ul><blockquote>" + u + "</blockquote>"
+		a["mediaType"] = "text/html"
+		n.Serve(a)
 	}
 	grp := fedi.Actor(h1+"/groups/g", "Group", "g")
 	grp["type"] = "Group"
@@ -253,14 +258,14 @@ func pubWorld() *fedi.Net {
 	for i := 1; i <= 4; i++ {
 		n.Serve(M{"type": "Note", "id": fmt.Sprintf("%s/items/%d", h1, i), "content": fmt.Sprintf("item %d", i), "name": "i"})
 	}
-	// a post with two replies given by reference: one genuine, one that answers another post
+	// a post with two embedded replies: one genuine, one that answers another post
 	threaded := fedi.Note(h1+"/notes/threaded", "threaded")
 	var kids []any
 	for i, parent := range []string{h1 + "/notes/threaded", h1 + "/notes/parent"} {
 		k := fedi.Note(fmt.Sprintf("%s/notes/kid%d", h1, i), fmt.Sprintf("kid %d", i))
 		k["inReplyTo"] = parent
 		n.Serve(k)
-		kids = append(kids, k["id"])
+		kids = append(kids, k) // embedded (same host, so they are taken as they are): no fetch per reply
 	}
 	threaded["replies"] = M{"type": "Collection", "id": h1 + "/notes/threaded/replies", "totalItems": 2.0, "items": kids}
 	n.Serve(threaded)
@@ -559,6 +564,20 @@ func runScenario(r *ev.Report, name string, budget time.Duration, maxBound int) 
 				y := run(schedule)
 				z := run(schedule)
 				if faultKeys(y.Faults) != faultKeys(x.Faults) || faultKeys(z.Faults) != faultKeys(x.Faults) {
+					// A race on package-level state that survives from one execution to the next
+					// (an unsynchronised cache that is warm the second time) is real although the
+					// replay looks different: the state it races on is exactly what the harness
+					// cannot reset. Report it; anything else that does not repeat is the harness's.
+					raced := false
+					for _, f := range x.Faults {
+						if strings.HasPrefix(f, "data-race:") {
+							raced = true
+							r.Violation(name[:strings.Index(name, "-")]+":"+faultKey(f)+":on-state-kept-between-executions", replay{name, schedule, x.Faults})
+						}
+					}
+					if raced {
+						return true
+					}
 					ev.Fatal("harness nondeterminism in %s: schedule %v gave %v, then %v, then %v", name, schedule, x.Faults, y.Faults, z.Faults)
 				}
 				keys := map[string]bool{}
